@@ -260,7 +260,21 @@ func awkwardCatalogue() []named {
 		{"string", "str"},
 		{"[]string{}", []string{}},
 		{"[]string3", []string{"a", "b", "c"}},
+		// whole structures whose leaves are awkward for a comparison with the "AND-awkward-leaves" / "cond-awkward-leaf" receivers:
+		// same shape, but a DIFFERENT struct type (embedded field exported on one side only), nil pointers inside slices, []any of mixed things
+		{"stack-awkward-leaves", awkwardLeafStack(true)},
+		{"cond-awkward-leaf", stackage.Cond("k", stackage.Eq, eqStructX{A: 1, C: "c"})},
 	}
+}
+
+func awkwardLeafStack(other bool) stackage.Stack {
+	var np *int
+	one := 1
+	var st any = eqStructP{A: 1, C: "c"}
+	if other {
+		st = eqStructX{A: 1, C: "c"}
+	}
+	return stackage.And().Push(st, []*int{&one, np}, []any{nil, &one, []int{1}, map[string]any{"k": np}}, map[string]any{"s": st})
 }
 
 func plainAnys() []named {
@@ -416,6 +430,7 @@ func liveStackMakers() []recvMaker {
 			s.SetValidityPolicy(func(...any) error { return nil })
 			return s.Push("m", "n")
 		}},
+		recvMaker{"AND-awkward-leaves", "Stack", func() any { return awkwardLeafStack(false) }},
 		recvMaker{"OR-failing-validity", "Stack", func() any {
 			s := stackage.Or().Push("v1", "v2")
 			s.SetValidityPolicy(func(...any) error { return sentinelErr })
@@ -442,6 +457,7 @@ func liveCondMakers() []recvMaker {
 			return stackage.Cond("k", userOp("~="), 5).SetEncap(`"`).SetParen(true).SetID("cid").SetCategory("cc").SetAuxiliary(stackage.Auxiliary{"z": 2})
 		}},
 		{"cond-initonly", "Condition", func() any { var c stackage.Condition; c.Init(); return c }},
+		{"cond-awkward-leaf", "Condition", func() any { return stackage.Cond("k", stackage.Eq, eqStructP{A: 1, C: "c"}) }},
 		{"cond-failing-validity", "Condition", func() any {
 			c := stackage.Cond("k", stackage.Eq, "v")
 			c.SetValidityPolicy(func(...any) error { return sentinelErr })
